@@ -70,8 +70,10 @@ ERef == EarleyRun(G(g), input)             \* LR-independent reference
 C01_Sound     == c.status = "accept" => SoundCfg(G(g), input, c)
 C01_NoStuck   == c.status \notin {"underflow", "nogoto"}
 C01_Handles   == c.dok
-C02_Complete  == (CFg /\ c.status # "run" /\ ERef.status = "accept") => c.status = "accept"
-C06_FirstBad  == (CFg /\ c.status # "run" /\ ERef.status = "error") => (c.status = "error" /\ c.pos = ERef.pos)
+\* (Ref is used here; SpecTabOK below establishes Ref = Earley for the very same input, so Earley is
+\* evaluated once per input)
+C02_Complete  == (CFg /\ c.status # "run" /\ Ref.status = "accept") => c.status = "accept"
+C06_FirstBad  == (CFg /\ c.status # "run" /\ Ref.status = "error") => (c.status = "error" /\ c.pos = Ref.pos)
 \* the specification's own table, driven by the spec driver, agrees with Earley
 \* on every conflict-free grammar (cross-validation of LALR.tla + LRDriver.tla)
 SpecTabOK     == (CFg /\ c = InitCfg) =>
@@ -79,6 +81,7 @@ SpecTabOK     == (CFg /\ c = InitCfg) =>
                     /\ r.status = e.status /\ r.pos = e.pos
                     /\ r.status = "accept" => SoundCfg(G(g), input, r)
 C06_NoDiverge == CFg => c.status # "diverge"
+\* on any grammar (conflicts or not) an input outside L(G) is never accepted
 C06_NoFalseAccept == c.status = "accept" => ERef.status = "accept"
 \* C04 at behaviour level: on a grammar whose conflicts are all decided by the
 \* rules of C04, the recorded table parses every input exactly as the
